@@ -12,6 +12,9 @@ the same cells in opposite order, with the finer of the two meshes.
 import Dassh.Gen.C09
 import Dassh.Lemmas.TableSound
 import Mathlib.Tactic.Ring
+import Mathlib.Tactic.FieldSimp
+import Mathlib.Algebra.BigOperators.Group.List.Basic
+import Mathlib.Algebra.Order.Field.Basic
 
 namespace Dassh.Props.C09
 open Dassh.Gen.C09
@@ -27,5 +30,30 @@ theorem c09_full_core_gap_exchange_cancels {K : Type} [Field K] [LinearOrder K] 
     (R : Nat → Nat → K) (hR : ∀ i j, R j i = R i j) (kc : K) (T : Nat → K) :
     ∑ c ∈ Finset.range fullNsc, ((Dassh.Table.row fullAdj 12 3 c).map fun j => kc * R c j * (T j - T c)).sum = 0 :=
   full_exch (fun c j => kc * R c j * (T j - T c)) (fun i j => by rw [hR j i]; ring)
+
+/-! ### Flow split over the gap cells (last clause of C09)
+
+`Core.load` sets `_sc_mfr = gap_flow_rate * area / total area` (the numeric oracle compares the real arrays with exactly this
+expression on every dumped layout).  For any list of cell areas with non-zero sum: the cell flows sum to the gap flow, and two
+cells carry flows in the ratio of their areas. -/
+
+/-- the split `M * (a / S)` over a list of areas -/
+def gapSplit {K : Type} [Field K] (M : K) (A : List K) : List K := A.map fun a => M * (a / A.sum)
+
+theorem c09_flow_split_sum {K : Type} [Field K] (M : K) (A : List K) (h : A.sum ≠ 0) : (gapSplit M A).sum = M := by
+  unfold gapSplit
+  have hmap : (A.map fun a => M * (a / A.sum)) = A.map (fun a => (M / A.sum) * a) := by
+    apply List.map_congr_left; intro a _; field_simp
+  rw [hmap, List.sum_map_mul_left, List.map_id']
+  field_simp
+
+theorem c09_flow_split_proportional {K : Type} [Field K] (M a b S : K) : (M * (a / S)) * b = (M * (b / S)) * a := by ring
+
+/-- with positive areas and a positive gap flow every cell flow is positive (the divisor `_inv_sc_mfr` of the gap update exists) -/
+theorem c09_flow_split_pos {K : Type} [Field K] [LinearOrder K] [IsStrictOrderedRing K] (M a S : K) (hM : 0 < M) (ha : 0 < a)
+    (hS : 0 < S) : 0 < M * (a / S) := by positivity
+
+example : (gapSplit (6 : ℚ) [1, 2, 3]).sum = 6 := by
+  apply c09_flow_split_sum; norm_num
 
 end Dassh.Props.C09
